@@ -21,7 +21,7 @@ def hash_groups():
       what='bucket selection with an arbitrary caller hash: result inside [0,count) of the array or abort',
       covers=['end', 'abort'])
     for n in (0, 1, 2, 3):      # (0: an empty dirty bucket still gets its stamp -- seeded change C03-5)
-        G.append(Group('hash.clean_bucket.chain%d' % n, ['C19', 'C03'], 'B', S, 'h_clean_bucket_b',
+        G.append(Group('hash.clean_bucket.chain%d' % n, ['C19', 'C03', 'C17'], 'B', S, 'h_clean_bucket_b',
                        sources=['hash.c'], defines=['-DVF_G_clean_bucket_b', '-DVF_CHAIN=%d' % n], unwind=6, instances=1,
                        what='cstl_clean_bucket against its flat contract on a chain of %d nodes: stamp set, other stamps kept, frame = bucket array + the detached nodes, one hash consultation per relocated node' % n,
                        scope='chain of exactly %d nodes in the bucket; bucket array of any size' % n,
